@@ -142,6 +142,8 @@ class C18(Prop):
         tp = jv.to_plain
         return [{'kind': 'host', 's': tp('example.com\n')}, {'kind': 'host', 's': tp('K.com')}, {'kind': 'proto', 's': tp('t,p')},
                 {'kind': 'proto', 's': tp('tcp\n')}, {'kind': 'netaddr', 'host': tp('fe80::1%]'), 'port': 80},
+                {'kind': 'parse', 'what': 'netaddr', 's': tp('[::1]x80'), 'df': 'none'}, {'kind': 'parse', 'what': 'service', 's': tp('tcp://[::1] 80'), 'df': 'none'},
+                {'kind': 'parse', 'what': 'netaddr', 's': tp('[::1]65535'), 'df': 'none'}, {'kind': 'parse', 'what': 'netaddr', 's': tp('[fe80::1%eth0];443'), 'df': 'none'},
                 {'kind': 'netaddr', 'host': tp('::ffff:1.2.3.4'), 'port': 80, 'hostobj': True}, {'kind': 'service', 'proto': 'tcp', 'host': tp('::ffff:10.0.0.1'), 'port': 1, 'hostobj': True},
                 {'kind': 'netaddr', 'host': tp('::1.2.3.4'), 'port': 80, 'hostobj': True}, {'kind': 'netaddr', 'host': tp('1.2.3.4'), 'port': 80, 'hostobj': True},
                 {'kind': 'host', 's': tp('a' * 63 + '.' + 'b' * 63)}, {'kind': 'port', 'p': tp('٨٠')}, {'kind': 'port', 'p': tp('²')}]
@@ -171,6 +173,7 @@ class C18(Prop):
                                 'a://b://c', 'tcp://[::1]', 'tcp://[::1]:1', 'x' * 300, 'tcp://' + gen_hostish(rng), gen_hostish(rng),
                                 gen_hostish(rng) + ':' + str(rng.randrange(70000)), 'example.com:000080', '[::1]:0000443', 'ssl://1.2.3.4:065535',
                                 'example.com:80:443', '1.2.3.4:80:', 'localhost:80:x', 'ssl://example.com:443:junk', 'example.com::80',
+                                '[::1]x80', '[::1] 80', '[::1]65535', '[::1]\n80', 'tcp://[::1]x80', '[fe80::1%eth0]' + rng.choice(['x', ' ', ';', '.', '1']) + str(rng.randrange(1, 65536)),
                                 'host:0' + str(rng.randrange(70000)), 'tcp://host:80:' + str(rng.randrange(100))])
                 yield {'kind': 'parse', 'what': rng.choice(['netaddr', 'service', 'service']), 's': tp(s),
                        'df': rng.choice(['none', 'full', 'noproto', 'nothing', 'portonly', 'badvals', 'strport'])}
@@ -248,6 +251,10 @@ class C18(Prop):
             s = fp(case['s'])
             if isinstance(s, str) and 'exc' not in obs and case['df'] == 'none':
                 addr = s.split('://', 1)[1] if (case['what'] == 'service' and '://' in s) else s
+                if addr.startswith('[') and ']' in addr:
+                    rest = addr[addr.rfind(']') + 1:]
+                    if rest and not rest.startswith(':'):
+                        return ('a bracketed address text was accepted although what follows the closing bracket does not begin with a colon: %r' % rest[:20])
                 if '[' not in addr and addr.count(':') != 1:
                     return ('an address text with %d colons outside brackets was accepted without defaults: what follows the host must be '
                             'exactly one colon and a port' % addr.count(':'))
